@@ -26,10 +26,12 @@ func genC04(rng *rand.Rand, c *Case) {
 	c.Cfg["guest"] = rng.Intn(2)
 	c.Cfg["guestpw"] = rng.Intn(3) / 2
 	c.Cfg["acctseed"] = rng.Intn(1 << 30)
+	// account history: 0 none, 1 "retired" renamed (new password), 2 password of "retired" changed, 3 "retired" deleted
+	c.Cfg["history"] = rng.Intn(4)
 	peers := 1 + rng.Intn(6)
 	for i := 0; i < peers; i++ {
 		// N: [handshake variant, credential variant, account index, first transaction type variant, tail length, seed, delay, banned]
-		c.Ops = append(c.Ops, Op{C: i, K: "peer", N: []int{rng.Intn(8), rng.Intn(10), rng.Intn(3), rng.Intn(4), rng.Intn(6), rng.Intn(1 << 30), rng.Intn(80), rng.Intn(8) / 7}})
+		c.Ops = append(c.Ops, Op{C: i, K: "peer", N: []int{rng.Intn(8), rng.Intn(12), rng.Intn(3), rng.Intn(4), rng.Intn(6), rng.Intn(1 << 30), rng.Intn(80), rng.Intn(8) / 7}})
 	}
 }
 
@@ -66,6 +68,7 @@ func runC04(w *World) {
 		w.AddAccount(a.Login, "Name of "+a.Login, a.Pw, all)
 	}
 	w.AddAccount("observer", "Observer", "obs", all)
+	w.AddAccount("retired", "Retired", "oldpw", all)
 	// account databases also contain accounts whose stored hash is unusable (hand-edited file, empty Password,
 	// a hash damaged in transit): such an account has no password that matches, nobody may log in with it
 	broken := []string{"", "plaintext-password", "$2a$04$tooshort", "$9z$04$6Yq/TIlgjSD.FbARwtYs9ODnkHawonu1TJ5W2jJKfhnHwBIQTk./y"}[cfg["acctseed"]%4]
@@ -94,6 +97,24 @@ func runC04(w *World) {
 				w.Violate("c04-observer-login", "observer %d could not log in", idx)
 			}
 			knownIDs[c.MyUserID()] = true
+			if idx == 0 && cfg["history"] != 0 {
+				// an administrator retires credentials before the peers arrive: "the account's current password"
+				var rep rp.Tran
+				var ok bool
+				switch cfg["history"] {
+				case 1:
+					rep, ok = c.UpdateUsers([]UserEdit{{Kind: "rename", Login: "retired", NewLogin: "renamed", Name: "Renamed", Access: all, PwMode: PwNew, Pw: "newpw"}})
+				case 2:
+					rep, ok = c.SetUser("retired", "Retired", all, PwNew, "newpw")
+				case 3:
+					rep, ok = c.DeleteUser("retired")
+				}
+				if !ok || rep.Err != 0 {
+					w.Violate("c04-admin-edit-refused", "account edit %d refused: %s", cfg["history"], fieldStr(rep, rp.FError))
+				}
+				w.Probe(fmt.Sprintf("account_history_%d", cfg["history"]))
+				before = SnapshotTree(w.Sandbox)
+			}
 			obsReady++
 			simrt.Wake(&startQ)
 			for obsReady < no {
@@ -205,6 +226,14 @@ func runC04(w *World) {
 				if rng.Intn(2) == 0 {
 					pw = ""
 				}
+			case 10: // the credentials that were valid before the administrator's edit
+				login, pw, match = "retired", "oldpw", cfg["history"] == 0
+			case 11: // the credentials the edit established
+				login, pw = "retired", "newpw"
+				if cfg["history"] == 1 {
+					login = "renamed"
+				}
+				match = cfg["history"] == 1 || cfg["history"] == 2
 			case 8:
 				if len(pw) < 72 { // beyond 72 bytes bcrypt ignores the rest: outside the property's quantifier
 					pw, match = pw+"\x00", false
